@@ -20,6 +20,10 @@ Core Lean only.
 namespace JF.Sys
 open JF JF.Act JF.Heap JF.Sched JF.Med JF.CW
 
+instance : DecidableEq (Time Rat) := fun a b =>
+  if h : a.q = b.q ∧ a.r = b.r then isTrue (by cases a; cases b; cases h; simp_all)
+  else isFalse (by intro e; apply h; rw [e]; exact ⟨rfl, rfl⟩)
+
 /-- candidate event times, exact reading -/
 inductive XTime where
   /-- `Time(-inf, -inf)` -/
@@ -27,6 +31,7 @@ inductive XTime where
   | fin (t : Time Rat)
   /-- `Time(inf, inf)` -/
   | inf
+deriving DecidableEq
 
 /-- `Time.cLt` extended by the two infinite values -/
 def XTime.lt : XTime → XTime → Bool
@@ -69,6 +74,9 @@ structure Sys where
 /-- the occupancy the next call of `get_event_handlers_to_run` works with -/
 def occNext (env : Env Rat) (hasOcc : Bool) (s : Sys) : Option Occ.State :=
   if s.med.act.started then occAfter env hasOcc s.occ s.us else some s.occ
+
+/-- the units `SingleActiveCellOccupancy.initialize` loops over: all point masses, in order -/
+def unitsOf (env : Env Rat) (us : List (PUnit Rat)) : List Occ.UnitIn := (List.range us.length).map (unitIn env us)
 
 /-- the mediator's view of the wiring; `needs h` = `event_handler.number_send_event_time_arguments != 0` -/
 def mwire (c : Wiring) (S : TaggerIdx) (needs : HandlerId → Bool) : MWire := MWire.ofWiring c S needs
